@@ -6,6 +6,7 @@ import (
 	"go/constant"
 	"go/token"
 	"go/types"
+	"sort"
 	"strings"
 
 	"golang.org/x/tools/go/ssa"
@@ -835,4 +836,237 @@ func compatible(a, b []condLit) bool {
 		}
 	}
 	return true
+}
+
+// ---- C03.R4 a member key is always followed by a value ----
+
+// An opcode handler that writes a member key with appendStructKey must, on every path to the end of
+// the handler, either append the value itself or hand over to code.Next (the opcode that encodes the
+// value). Leaving for code.NextField / code.End with the key written and no value is `"a":,`.
+type keyWalk struct {
+	info *types.Info
+	bad  token.Pos
+	why  string
+}
+
+type keyState struct {
+	pending token.Pos // position of the key still waiting for its value; NoPos if none
+	target  string    // last assignment to code: "Next", "NextField", "End", …; "" if none after the key
+}
+
+var valuelessAppends = map[string]bool{
+	"appendStructKey": true, "appendComma": true, "appendCommaIndent": true, "appendIndent": true,
+	"appendStructEnd": true, "appendStructEndSkipLast": true, "appendObjectEnd": true, "appendArrayEnd": true,
+	"appendMapEnd": true, "appendColon": true,
+}
+
+func (w *keyWalk) callsIn(n ast.Node, f func(name string, c *ast.CallExpr)) {
+	ast.Inspect(n, func(m ast.Node) bool {
+		if _, isLit := m.(*ast.FuncLit); isLit {
+			return false
+		}
+		if c, ok := m.(*ast.CallExpr); ok {
+			if id := calleeIdent(c.Fun); id != nil {
+				f(id.Name, c)
+			}
+		}
+		return true
+	})
+}
+
+// simple applies a non-branching statement to the state.
+func (w *keyWalk) simple(st ast.Stmt, s keyState) keyState {
+	w.callsIn(st, func(name string, c *ast.CallExpr) {
+		switch {
+		case name == "appendStructKey":
+			if s.pending != token.NoPos && w.bad == token.NoPos {
+				w.bad, w.why = c.Pos(), "a second key is written while the first still has no value"
+			}
+			s.pending, s.target = c.Pos(), ""
+		case name == "append" || (strings.HasPrefix(name, "append") && !valuelessAppends[name]):
+			s.pending = token.NoPos
+		}
+	})
+	if as, ok := st.(*ast.AssignStmt); ok && len(as.Lhs) == 1 && len(as.Rhs) == 1 {
+		if id, isIdent := as.Lhs[0].(*ast.Ident); isIdent && id.Name == "code" {
+			if sel, isSel := core.Unparen(as.Rhs[0]).(*ast.SelectorExpr); isSel {
+				s.target = sel.Sel.Name
+			} else {
+				s.target = "?"
+			}
+		}
+	}
+	return s
+}
+
+// end is called where control leaves the handler.
+func (w *keyWalk) end(pos token.Pos, s keyState) {
+	if s.pending == token.NoPos || w.bad != token.NoPos {
+		return
+	}
+	if s.target == "Next" {
+		return
+	}
+	w.bad = pos
+	if s.target == "" {
+		w.why = "the handler ends with the key written, no value appended and no hand-over to code.Next"
+	} else {
+		w.why = fmt.Sprintf("the handler leaves for code.%s with the key written and no value appended", s.target)
+	}
+}
+
+// walk returns the states with which control falls out of the end of list.
+func (w *keyWalk) walk(list []ast.Stmt, in []keyState) []keyState {
+	cur := in
+	for _, st := range list {
+		if len(cur) == 0 {
+			return nil
+		}
+		var next []keyState
+		for _, s := range cur {
+			next = append(next, w.stmt(st, s)...)
+		}
+		cur = dedupKeyStates(next)
+	}
+	return cur
+}
+
+func dedupKeyStates(in []keyState) []keyState {
+	seen := map[keyState]bool{}
+	var out []keyState
+	for _, s := range in {
+		if !seen[s] {
+			seen[s] = true
+			out = append(out, s)
+		}
+	}
+	return out
+}
+
+func (w *keyWalk) stmt(st ast.Stmt, s keyState) []keyState {
+	switch x := st.(type) {
+	case *ast.BlockStmt:
+		return w.walk(x.List, []keyState{s})
+	case *ast.IfStmt:
+		if x.Init != nil {
+			s = w.simple(x.Init, s)
+		}
+		s = w.simple(&ast.ExprStmt{X: x.Cond}, s)
+		out := w.walk(x.Body.List, []keyState{s})
+		switch e := x.Else.(type) {
+		case nil:
+			out = append(out, s)
+		case *ast.BlockStmt:
+			out = append(out, w.walk(e.List, []keyState{s})...)
+		case *ast.IfStmt:
+			out = append(out, w.stmt(e, s)...)
+		}
+		return out
+	case *ast.ForStmt:
+		out := []keyState{s}
+		out = append(out, w.walk(x.Body.List, []keyState{s})...)
+		return out
+	case *ast.RangeStmt:
+		out := []keyState{s}
+		out = append(out, w.walk(x.Body.List, []keyState{s})...)
+		return out
+	case *ast.SwitchStmt:
+		var out []keyState
+		hasDefault := false
+		for _, c := range x.Body.List {
+			cc := c.(*ast.CaseClause)
+			if len(cc.List) == 0 {
+				hasDefault = true
+			}
+			// a break inside a nested switch leaves only that switch
+			inner := &keyWalk{info: w.info}
+			res := inner.walkNested(cc.Body, s)
+			if inner.bad != token.NoPos && w.bad == token.NoPos {
+				w.bad, w.why = inner.bad, inner.why
+			}
+			out = append(out, res...)
+		}
+		if !hasDefault {
+			out = append(out, s)
+		}
+		return out
+	case *ast.ReturnStmt:
+		return nil // error exit: the output is discarded
+	case *ast.BranchStmt:
+		if x.Tok == token.BREAK || x.Tok == token.GOTO || x.Tok == token.CONTINUE {
+			w.end(x.Pos(), s)
+			return nil
+		}
+		return []keyState{s}
+	default:
+		return []keyState{w.simple(st, s)}
+	}
+}
+
+// walkNested walks the body of a clause of a nested switch: `break` there falls out of the nested
+// switch with the current state instead of ending the handler.
+func (w *keyWalk) walkNested(list []ast.Stmt, s keyState) []keyState {
+	cur := []keyState{s}
+	var fell []keyState
+	for _, st := range list {
+		var next []keyState
+		for _, c := range cur {
+			if br, ok := st.(*ast.BranchStmt); ok && br.Tok == token.BREAK && br.Label == nil {
+				fell = append(fell, c)
+				continue
+			}
+			next = append(next, w.stmt(st, c)...)
+		}
+		cur = dedupKeyStates(next)
+	}
+	return append(fell, cur...)
+}
+
+func c03r4(rc *core.RC) {
+	p := rc.P
+	t := loadOpTable(rc)
+	if t == nil {
+		return
+	}
+	for _, vm := range []string{"vm", "vm_indent", "vm_color", "vm_color_indent"} {
+		cl, _ := opClauses(rc, vm, t)
+		if cl == nil {
+			rc.Unknown(vm+"/Run", token.NoPos, "opcode switch not found")
+			continue
+		}
+		info := p.Pkg(vm).TypesInfo
+		var labels []string
+		for l := range cl {
+			labels = append(labels, l)
+		}
+		sort.Strings(labels)
+		n := 0
+		for _, l := range labels {
+			cc := cl[l]
+			writesKey := false
+			w := &keyWalk{info: info}
+			w.callsIn(cc, func(name string, _ *ast.CallExpr) {
+				if name == "appendStructKey" {
+					writesKey = true
+				}
+			})
+			if !writesKey {
+				continue
+			}
+			n++
+			key := fmt.Sprintf("%s.Run/%s key-has-value", vm, core.Clip(l, 60))
+			for _, s := range w.walk(cc.Body, []keyState{{}}) {
+				w.end(cc.End(), s)
+			}
+			if w.bad != token.NoPos {
+				rc.Bad(key, w.bad, "%s: the output is an object member without a value", w.why)
+			} else {
+				rc.OK(key, cc.Pos(), "on every path the key is followed by an appended value or by the hand-over to code.Next")
+			}
+		}
+		rc.Touch(vm + ".Run")
+		if n < 100 {
+			rc.Unknown(vm+".Run/key-writers", token.NoPos, "only %d opcode handlers write a member key", n)
+		}
+	}
 }
